@@ -11,9 +11,11 @@ import (
 	"encoding/json"
 	"errors"
 	"fmt"
+	"github.com/emersion/go-webdav"
 	"hash/fnv"
 	"reflect"
 	"strings"
+	"sync/atomic"
 	"time"
 	"unicode/utf8"
 
@@ -64,6 +66,11 @@ type Case struct {
 	Early   bool        `json:"early,omitempty"`
 	// AnswerAfter > 0: the fake answers after reading that many upload bytes.
 	AnswerAfter int64 `json:"answer_after,omitempty"`
+	// Endless: the answer's body never ends (see fakeHTTP.endless).
+	Endless bool `json:"endless,omitempty"`
+	// Via "basic-auth": the client is built on webdav.HTTPClientWithBasicAuth
+	// around the fake instead of on the fake itself.
+	Via string `json:"via,omitempty"`
 	// Up scripts the caller side of Create: Size bytes in Writes Write calls,
 	// stopping (or not) at the first Write error, then Close.
 	Up *Upload `json:"upload,omitempty"`
@@ -136,16 +143,21 @@ type outcome struct {
 	raw        interface{}
 	calls      int
 	bodyClosed bool
+	fillerRead int64 // filler bytes of an endless body handed out
 }
 
 func execCase(m *minfo, cs *Case) *outcome {
-	f := &fakeHTTP{status: cs.Status, header: cs.Header, body: cs.bytes(), chunk: cs.Chunk, early: cs.Early, answerAfter: cs.AnswerAfter}
+	f := &fakeHTTP{status: cs.Status, header: cs.Header, body: cs.bytes(), chunk: cs.Chunk, early: cs.Early, answerAfter: cs.AnswerAfter, endless: cs.Endless}
+	var hc webdav.HTTPClient = f
+	if cs.Via == "basic-auth" {
+		hc = webdav.HTTPClientWithBasicAuth(f, "user", "secret")
+	}
 	oc := &outcome{}
 	done := make(chan struct{})
 	gid := make(chan int64, 1)
 	go func() {
 		gid <- curGoroutineID()
-		oc.panicked, oc.panicVal, oc.stack = fw.Guard(func() { oc.raw, oc.err = invoke(m, f, cs) })
+		oc.panicked, oc.panicVal, oc.stack = fw.Guard(func() { oc.raw, oc.err = invoke(m, hc, cs) })
 		close(done)
 	}()
 	caller := <-gid
@@ -159,6 +171,7 @@ func execCase(m *minfo, cs *Case) *outcome {
 		case <-done:
 			oc.calls = f.calls
 			oc.bodyClosed = f.bodyClosed
+			oc.fillerRead = atomic.LoadInt64(&f.delivered)
 			return oc
 		case <-t.C:
 		}
@@ -215,6 +228,15 @@ func runCase(c *fw.Ctx, cs *Case) {
 			fmt.Sprintf("%s never returns: the fake has finished its script, no goroutine can run, the caller is blocked in %s", cs.Method, oc.hangSite),
 			map[string]interface{}{"case": cs.witness(), "blocked_goroutine": oc.stack})
 		return
+	}
+	if cs.Endless {
+		c.Observe("endless_bodies", fmt.Sprintf("%s: filler read %s", cs.Class, map[bool]string{true: "to the fake's limit", false: "< 8 MiB"}[oc.fillerRead >= endlessCap]), 1)
+		if oc.fillerRead >= endlessCap {
+			c.Report(cs.Method+" | "+cs.Class+" | body read without bound",
+				fmt.Sprintf("%s: the answer (status %d) has a body that never ends; the call read all %d bytes of filler the fake was willing to send, so it would never return", cs.Method, cs.Status, oc.fillerRead),
+				cs.witness())
+			return
+		}
 	}
 	judge(c, m, cs, oc)
 }
@@ -512,6 +534,8 @@ func init() {
 			"'interpretable' bodies are conformant RFC 4918 multistatus documents holding the properties the method needs, all under 200 propstats (optional properties may be absent), or RFC 5545/6350 objects with the matching Content-Type",
 			"don't-cares (statement silent): 2xx-but-not-200 propstats; optional properties under failing propstats (error or omission, never the value); failing responses inside a list (error or omission); 207 answers to DELETE/COPY/MOVE; DTD-invalid but well-formed multistatus (missing href, two hrefs, empty current-user-principal, status without reason phrase, invalid percent escape in an href); OPTIONS answers without the addressbook class; malformed vCard lines (go-vcard skips them); result order",
 			"1xx/3xx statuses returned by the HTTP client are plain non-2xx statuses",
+			"a body that never ends is a response a server may send: for failing answers of a non-XML media type the fake follows the scripted bytes with filler and gives up after 8 MiB with a read error; a call that consumed all of it is reported as reading without bound (it would never return), any bounded reader passes; XML error bodies are left out (a streaming decoder cannot tell 'goes on' from 'not finished')",
+			"a third of the matrix / error-body cases and half of the challenge cases build the client on webdav.HTTPClientWithBasicAuth around the fake: the wrapper must be transparent for every answer",
 			"go-webdav/internal is imported for HTTPError and Error only (errors.As), as the property anchors them",
 		},
 		MinEvals:    func(t string) int64 { return map[string]int64{"quick": 150000, "thorough": 1500000}[t] },
